@@ -46,24 +46,47 @@ def stream_hex(c):
 
 
 def case_literal(c):
-    tbl, idx = [], {}
+    """Bodies are given to Coq as slices of the dump / stream literal (parsing long
+    literals is what costs time), plus `extra` byte strings found nowhere in them."""
+    tbl, idx, extra = [], {}, []
+    stream = hx(stream_hex(c))
 
-    def ix(h):
-        if h not in idx:
-            idx[h] = len(tbl)
-            tbl.append(h)
-        return idx[h]
-    dumprecs = [ix(c["objs"][p]) for p in c["perm"]]
-    recs = [ix(h) for h in c["recs"]]
-    oracle = [(ix(e["b"]), e["u"], e["s"]) for e in c["oracle"]]
-    stored = [ix(h) for h in c["stored"]]
-    stream = "None" if c["same"] else "(Some %s)" % vlib.coq_bytes(hx(c["stream"]))
-    return "(mkCase %s %s %s %d %d %s %s %s %s %s %d %d %d %s)" % (
-        vlib.coq_list(tbl, lambda h: vlib.coq_bytes(hx(h))),
+    def ix(ent):
+        if ent not in idx:
+            idx[ent] = len(tbl)
+            tbl.append(ent)
+        return idx[ent]
+    by_bytes = {}
+    for (off, ln) in c["recs"] + [[e["off"], e["len"]] for e in c["oracle"]]:
+        by_bytes.setdefault(stream[off:off + ln], (1, off, ln))
+    dumprecs = [ix((0, off, ln)) for (off, ln) in c["dump_recs"]]
+    recs = [ix(by_bytes[stream[off:off + ln]]) for (off, ln) in c["recs"]]
+    oracle = [(ix(by_bytes[stream[e["off"]:e["off"] + e["len"]]]), e["u"], e["s"]) for e in c["oracle"]]
+    stored = []
+    for h in c["stored"]:
+        b = hx(h)
+        if b in by_bytes:
+            stored.append(ix(by_bytes[b]))
+        else:
+            extra.append(b)
+            stored.append(ix((2, len(extra) - 1, 0)))
+    streaml = "None" if c["same"] else "(Some %s)" % vlib.coq_bytes(stream)
+    return "(mkCase %s %s %s %s %d %d %s %s %s %s %s %d %d %d %s)" % (
+        vlib.coq_list(tbl, lambda e: "(%d, %d, %d)" % e), vlib.coq_list(extra, vlib.coq_bytes),
         vlib.coq_list(dumprecs), vlib.coq_bytes(hx(c["dump"])), c["dump_count"], c["kind"],
-        vlib.coq_list(recs), stream, vlib.coq_list(c["sizes"]), vlib.coq_bool(c["ign"]),
+        vlib.coq_list(recs), streaml, vlib.coq_list(c["sizes"]), vlib.coq_bool(c["ign"]),
         vlib.coq_list(oracle, lambda e: "(%d, %d, %d)" % (e[0], e[1], e[2])),
         c["count"], c["fail"], c["err"], vlib.coq_list(stored))
+
+
+def dump_lists_put_objects(c):
+    """every record of the dump is byte-for-byte one of the objects put, every object is there"""
+    d = hx(c["dump"])
+    if c["dump_err"] or -1 in c["perm"] or len(c["perm"]) != len(c["dump_recs"]):
+        return False
+    if set(c["perm"]) != set(range(len(c["objs"]))):
+        return False
+    return all(d[off:off + ln] == hx(c["objs"][p]) for p, (off, ln) in zip(c["perm"], c["dump_recs"]))
 
 
 def splits_a_record(c):
@@ -117,13 +140,13 @@ def run(ctx):
     # pure bookkeeping checks on the dump side
     bad_dump_py = set()
     for i, c in enumerate(cases):
-        if c["dump_err"] or -1 in c["perm"] or set(c["perm"]) != set(range(len(c["objs"]))):
+        if not dump_lists_put_objects(c):
             bad_dump_py.add(i)
 
-    CH = 8 if ctx.tier == "quick" else 16
+    CH = 4 if ctx.tier == "quick" else 12
     jobs, offs = [], []
     for off in range(0, len(cases), CH):
-        chunk = [c if -1 not in c["perm"] else dict(c, perm=[p for p in c["perm"] if p >= 0]) for c in cases[off:off + CH]]
+        chunk = cases[off:off + CH]
         lit = vlib.coq_list(chunk, case_literal)
         jobs.append(("cases", "From NV Require Import Shard.Dump Shard.DumpCheck.\nFrom Coq Require Import List NArith. Import ListNotations.\n"
                      "Definition cases : list case := %s.\n" % lit,
